@@ -460,9 +460,26 @@ class StartStageHandler(
                     )
             return
         except ConcurrencyError:
-            # Another handler already claimed this stage (race condition with
-            # multiple upstream stages completing simultaneously). This is safe
-            # to ignore - the stage is already being processed.
+            # Usually another handler already claimed this stage (race condition
+            # with multiple upstream stages completing simultaneously), which is
+            # safe to ignore - the stage is already being processed. But the row
+            # may also have been written by a non-claiming writer (a buffered
+            # SignalStage, join tracking of a completing upstream): then nobody
+            # holds the claim, and dropping this message would leave the stage
+            # NOT_STARTED forever with nothing queued. Re-queue the start request.
+            current = self.repository.retrieve_stage(stage.id)
+            if current.status == WorkflowStatus.NOT_STARTED:
+                retry_count = getattr(message, "retry_count", 0) or 0
+                self.queue.push(
+                    StartStage(
+                        execution_type=message.execution_type,
+                        execution_id=message.execution_id,
+                        stage_id=message.stage_id,
+                        retry_count=retry_count + 1,
+                    ),
+                    self.retry_delay,
+                )
+                return
             logger.debug(
                 "Ignoring duplicate StartStage for %s (concurrent claim)",
                 stage.name,
